@@ -221,6 +221,14 @@ def reqUs : Kind → Nat → Nat → Nat
   | .sl, a, _ => a * 1000000
   | .ns, a, b => a * 1000000 + (b + 999) / 1000
 
+/-- what the C types allow: 32-bit arguments of fiber_sleep / usleep / sleep; nanosleep's own
+    contract tv_nsec < 10^9 (tv_sec is a 64-bit time_t: any value) -/
+def argsOk : Kind → Nat → Nat → Bool
+  | .fs, a, b => decide (a < M32) && decide (b < M32)
+  | .us, a, _ => decide (a < M32)
+  | .sl, a, _ => decide (a < M32)
+  | .ns, _, b => decide (b < 1000000000)
+
 /-- microseconds the protocol guarantees for a list of fiber_sleep calls -/
 def guaranteed (v : Variant) : List (Nat × Nat) → Nat
   | [] => 0
@@ -345,6 +353,8 @@ structure St where
   req : Nat → Nat
   /-- ghost: `guaranteed v (plan …)` of the API call in progress -/
   guar : Nat → Nat
+  /-- ghost: the arithmetic of the call in progress lost part of the request (32-bit overflow) -/
+  ovf : Nat → Bool
   credit : Nat → Nat
   segStart : Nat → Nat
   base : Nat → Nat
@@ -364,7 +374,7 @@ structure St where
 def init : St :=
   { now := 0, pending := 0, fl := [], ttc := 0, users := 0, ticket := 0, holder := none, unl := none,
     tree := .nil, cur := [], curW := 0, pend := none, pc := fun _ => .idle, segs := fun _ => [],
-    start := fun _ => 0, req := fun _ => 0, guar := fun _ => 0, credit := fun _ => 0, segStart := fun _ => 0,
+    start := fun _ => 0, req := fun _ => 0, guar := fun _ => 0, ovf := fun _ => false, credit := fun _ => 0, segStart := fun _ => 0,
     base := fun _ => 0, wake := fun _ => 0, stale := fun _ => false, badRead := false, lost := [],
     nPark := fun _ => 0, nWake := fun _ => 0, nRes := fun _ => 0 }
 
@@ -383,10 +393,11 @@ def step (v : Variant) (s : St) : Ev → Option St
     else none
   | .callSleep f kind a b t =>
     -- fiber id 0 is the main fiber (the clock); 0 also stands for NULL in the node cells
-    if s.pc f = .idle ∧ t = s.now ∧ f ≠ 0 then
+    if s.pc f = .idle ∧ t = s.now ∧ f ≠ 0 ∧ argsOk kind a b = true then
       some { s with pc := upd s.pc f .called, segs := upd s.segs f (plan v kind a b),
                     start := upd s.start f s.now, req := upd s.req f (reqUs kind a b),
                     guar := upd s.guar f (guaranteed v (plan v kind a b)),
+                    ovf := upd s.ovf f (decide (guaranteed v (plan v kind a b) < reqUs kind a b)),
                     credit := upd s.credit f 0, segStart := upd s.segStart f s.now,
                     stale := upd s.stale f false }
     else none
@@ -468,7 +479,7 @@ def step (v : Variant) (s : St) : Ev → Option St
     match s.pc f, s.segs f with
     | .inserting, (sec, usec) :: _ =>
       let t' := insert s.tree f wt
-      if wt = s.base f + ticks v sec usec ∧ pendOk t' s.pend ∧ (s.pend.map (·.2)) = some f then
+      if wt = s.base f + ticks v sec usec ∧ pendOk t' s.pend ∧ (s.pend.map (·.2)) = some f ∧ f ≠ 0 then
         some { s with tree := t', wake := upd s.wake f wt, pend := none, pc := upd s.pc f .inserted }
       else none
     | _, _ => none
